@@ -1021,6 +1021,10 @@ impl Table for Viot {
             ("same-range-other-iommu".into(), vec![pi, mi, pr(0x10, 0x1f, 0), pr(0x10, 0x1f, 7), pr(0x20, 0x2f, 0), pr(0x20, 0x2f, 7)]),
             ("adjacent-after-iommu".into(), vec![pi, pr(0, 0x1f, 0), mi, pr(0x20, 0x3f, 0), pi, pr(0x40, 0x5f, 7)]),
             ("adjacent-endpoints".into(), vec![mi, ep(1, 0x1000_0000, 0), ep(2, 0x1000_1000, 0), ep(3, 0x1000_2000, 0), ep(3, 0x1000_2000, 0)]),
+            // a range whose first device is numerically above its last (two-segment windows look like this), then nodes
+            // whose offsets depend on it having been emitted
+            ("descending-range".into(), vec![pi, pr(0x80, 0x7f, 0), mi, pr(0, 0x10, 7), ep(5, 0x2000_0000, 7), pi, pr(0xff, 0, 7)]),
+            ("single-device-range".into(), vec![pi, pr(0x42, 0x42, 0), mi, ep(5, 0x2000_0000, 7)]),
             ("endpoint-equal-to-iommu-base".into(), vec![Op { k: V_MMIO_IOMMU, shape: 0, fill: Fill::b(0).with(0, 0x1000_0000) }, ep(0, 0x1000_0000, 0), ep(0x1000_0000, 0, 0)]),
         ]
     }
